@@ -34,6 +34,7 @@ type AField struct {
 	Hasjson  bool     `json:"hasjson"`
 	Gomacro  string   `json:"gomacro"`
 	Sub      []AField `json:"sub"`
+	Nilable  bool     `json:"nilable"` // Go writes null for the zero value: slices (incl. []byte) and maps, named or not
 }
 
 type XStruct struct {
@@ -101,6 +102,10 @@ func fieldsOf(st *types.Struct, depth int) []AField {
 			opts = "," + opts
 		}
 		af := AField{Goname: f.Name(), Exported: f.Exported(), Emb: "no", Tagname: name, Tagopts: opts, Hasjson: has, Gomacro: tag.Get("gomacro"), Sub: []AField{}}
+		switch types.Unalias(f.Type()).Underlying().(type) {
+		case *types.Slice, *types.Map:
+			af.Nilable = true
+		}
 		if f.Embedded() {
 			if sub, ok := types.Unalias(f.Type()).Underlying().(*types.Struct); ok && f.Type().Underlying().String() != timeStruct && depth < 8 {
 				af.Emb = "struct"
